@@ -6,7 +6,7 @@
 EXTENDS Vec, SequencesExt, FiniteSetsExt
 
 VARIABLES v_lvl, v_idx
-Ctx == ("x" :> Str(S2B("X"))) @@ ("five" :> IntV(5))
+Ctx == ("x" :> Str(S2B("X"))) @@ ("five" :> IntV(5)) @@ ("hh" :> Hash(<< <<S2B("q"), IntV(7)>> >>))
 
 Lib == <<MacroS("m", <<"p">>, <<Text("m("), PrintS(NameE("p")), Text(")")>>)>>
 Base == <<Text("^"), BlockS("a", <<Text("ba")>>), Text("|"), BlockS("b", <<Text("bb"), PrintS(NameE("x"))>>), Text("$")>>
@@ -32,7 +32,10 @@ Bases == <<
   <<Text("a"), EmbedS(StrE("base"), NoE, FALSE, <<[name |-> "a", body |-> <<Text("ea")>>]>>), Text("b")>>,
   <<ImportS(StrE("lib"), "L"), Text("a"), PrintS(AttrCall(NameE("L"), "m", <<IntE(1)>>)), FromS(StrE("lib"), << <<"m", "m">> >>), PrintS(CallE("m", <<IntE(2)>>)), Text("b")>>,
   <<Text("a"), BlockS("k", <<Text("b"), PrintS(CallE("block", <<StrE("j")>>))>>), BlockS("j", <<Text("J")>>), Text("c")>>,
-  <<Text("a"), IfS(NameE("x"), <<Text("t"), FilterS(<<"up">>, <<Text("q")>>)>>, <<Text("e")>>, TRUE), Text("c")>>
+  <<Text("a"), IfS(NameE("x"), <<Text("t"), FilterS(<<"up">>, <<Text("q")>>)>>, <<Text("e")>>, TRUE), Text("c")>>,
+  (* loops over a hash literal and over a hash of the context: the body's failure ends the loop and the rendering *)
+  <<Text("a"), ForS("k", "v", HashE(<< <<NameE("hk"), IntE(1)>> >>), NoE, <<PrintS(NameE("k")), Text("="), PrintS(NameE("v"))>>, <<>>, FALSE), Text("b")>>,
+  <<Text("a"), ForS("", "v", NameE("hh"), NoE, <<Text("["), PrintS(NameE("v")), Text("]")>>, <<Text("E")>>, TRUE), Text("b")>>
 >>
 
 ErrKinds == <<"filter", "func", "test", "noniter", "block", "include", "syntax", "macro">>
